@@ -1,6 +1,6 @@
 (* C03 — required criteria follow the documented policy rules over the whole graph. *)
 Require Import Base Extracted Criteria DepGraph.
-Require Import ReqProofs.
+Require Import ReqProofs DfsProofs.
 
 (* Vocabulary (definitions in proofs/ReqProofs.v, all computable):
      has c r j            criterion c is in the demand r assigns to crate j
@@ -20,26 +20,44 @@ Require Import ReqProofs.
      else dev_demand j
    i.e. exactly the rules of the property, union over all paths included. *)
 
-(* the computed demands satisfy the equations, for every criteria table, graph and policy
-   table.  PARTIAL: under [topo_ok g] — the order DepGraph::new produced lists every crate
-   once and each crate before its normal/build dependencies.  That the DFS of depgraph_new
-   delivers this for acyclic normal/build edges is NOT proved; the correspondence run
-   evaluates [topo_ok (depgraph_new ..)] and [roots_ok] on every generated graph. *)
-Theorem C03_requirements_solve_the_policy_equations_partial : forall t g c,
+(* [acyclic_in inp]: the normal/build edges of the resolve graph are acyclic (some rank
+   decreases along them) and point to packages of the graph — what cargo guarantees of its
+   resolve graph; dev edges may form cycles back into the workspace.  Under it, DepGraph::new's
+   two DFS passes produce an order that lists each crate once, after all its normal/build
+   dependencies, and the roots are exactly the workspace members nothing in the normal build
+   graph depends on. *)
+Theorem C03_order_is_topological : forall inp, acyclic_in inp -> topo_ok (depgraph_new inp) = true.
+Proof. exact depgraph_new_topo_ok. Qed.
+Theorem C03_roots_are_the_top_level_crates : forall inp, acyclic_in inp -> roots_ok (depgraph_new inp) = true.
+Proof. exact depgraph_new_roots_ok. Qed.
+
+(* the computed demands satisfy the equations, for every criteria table, dependency graph and
+   policy table *)
+Theorem C03_requirements_solve_the_policy_equations : forall t inp c,
+  acyclic_in inp ->
+  let g := depgraph_new inp in
+  let fin := resolve_requirements t g in
+  length fin = length (g_pkgs g) /\
+  forall j, j < length (g_pkgs g) -> has c fin j = req_equation t g c fin j.
+Proof. intros t inp c H. exact (requirements_satisfy_equations t _ c (depgraph_new_topo_ok inp H)). Qed.
+
+(* and they are the ONLY solution: whatever assignment satisfies the equations on the
+   processed crates is the computed one — so it is the least set satisfying the rules *)
+Theorem C03_the_solution_is_unique : forall t inp c,
+  acyclic_in inp ->
+  let g := depgraph_new inp in
+  forall b : list cset,
+  (forall j, In j (g_topo g) -> has c b j = req_equation t g c b j) ->
+  forall j, In j (g_topo g) -> has c b j = has c (resolve_requirements t g) j.
+Proof. intros t inp c H. exact (requirements_are_the_solution t _ c (depgraph_new_topo_ok inp H)). Qed.
+
+(* the same two statements for ANY graph value whose order passes the executable check *)
+Theorem C03_equations_for_any_ordered_graph : forall t g c,
   topo_ok g = true ->
   let fin := resolve_requirements t g in
   length fin = length (g_pkgs g) /\
   forall j, j < length (g_pkgs g) -> has c fin j = req_equation t g c fin j.
 Proof. exact requirements_satisfy_equations. Qed.
-
-(* and they are the ONLY solution: whatever assignment satisfies the equations on the
-   processed crates is the computed one — so it is the least set satisfying the rules *)
-Theorem C03_the_solution_is_unique_partial : forall t g c,
-  topo_ok g = true ->
-  forall b : list cset,
-  (forall j, In j (g_topo g) -> has c b j = req_equation t g c b j) ->
-  forall j, In j (g_topo g) -> has c b j = has c (resolve_requirements t g) j.
-Proof. exact requirements_are_the_solution. Qed.
 
 (* non-vacuity: a two-member workspace, a shared first-party crate, a diamond, a dev edge and
    a dependency-criteria entry; the order produced by depgraph_new passes topo_ok / roots_ok *)
@@ -59,5 +77,15 @@ Example C03_nonvacuous :
   resolve_requirements [] (depgraph_new ex_in) = [3%N; 1%N; 3%N; 3%N; 3%N].
 Proof. vm_compute. repeat split. Qed.
 
-Print Assumptions C03_requirements_solve_the_policy_equations_partial.
-Print Assumptions C03_the_solution_is_unique_partial.
+(* the example graph is acyclic in the sense above (rank = 4 - index does it) *)
+Example C03_example_is_acyclic : acyclic_in ex_in.
+Proof.
+  exists (fun x => 10 - x). intros x d Hx Hd. cbn in Hx.
+  destruct x as [|[|[|[|[|x]]]]]; try lia; cbn in Hd; repeat (destruct Hd as [<-|Hd]; [cbn; lia|]); destruct Hd.
+Qed.
+
+Print Assumptions C03_order_is_topological.
+Print Assumptions C03_roots_are_the_top_level_crates.
+Print Assumptions C03_requirements_solve_the_policy_equations.
+Print Assumptions C03_the_solution_is_unique.
+Print Assumptions C03_equations_for_any_ordered_graph.
